@@ -153,7 +153,7 @@ def run(tier, seed, t0):
                 if np.max(np.abs(exp - got)) > 1e-9:
                     raise core.Machinery("Pyzx!GraphSem disagrees with pyzx.tensorfy on %s" % json.dumps(t["g"]))
                 n_cross += 1
-        rejected, clauses = [], Counter()
+        rejected, clauses = core.track([]), Counter()
         for t, v in zip(rows, val["verdicts"]):
             clauses[v[0]] += 1
             if v[0] != "ok":
